@@ -524,7 +524,7 @@ func main() {
 	dw := bufio.NewWriter(df)
 	cf, _ := os.Create(out)
 	cw := bufio.NewWriter(cf)
-	evals, nontrivial, loadFailed, reloadDone, rebuildDone, netFiles, histories, interleaves, boundaries, sharedWrites, coldFiles := 0, 0, 0, 0, 0, 0, 0, 0, 0, 0, 0
+	evals, nontrivial, loadFailed, reloadDone, rebuildDone, netFiles, histories, interleaves, boundaries, sharedWrites, coldFiles, extremeEnums := 0, 0, 0, 0, 0, 0, 0, 0, 0, 0, 0, 0
 	scratch := os.Getenv("VERIF_SCRATCH")
 	if scratch == "" {
 		scratch = filepath.Dir(out)
@@ -721,6 +721,13 @@ func main() {
 		if s != "" {
 			fail(s, 0, n, d)
 		}
+		// J: enum value indexes over the whole int range
+		s, d, cnt = checkExtremeEnumIndexes(8)
+		evals += cnt
+		extremeEnums = cnt
+		if s != "" {
+			fail(s, 0, n, d)
+		}
 	}
 	dw.Flush()
 	df.Close()
@@ -729,8 +736,8 @@ func main() {
 	cf.Close()
 	sf, _ := os.Create(out + ".summary")
 	fmt.Fprintf(sf, "written %d\n", casesWritten)
-	fmt.Fprintf(sf, "cases %d\nevaluations %d\nnontrivial %d\ndistinct %d\nloadfailed %d\nreloads %d\nrebuilds %d\ngomaxprocs %d\nreps %d\nnetworkfiles %d\nhistories %d\ninterleaves %d\nboundaries %d\nsharedwrites %d\ncoldfiles %d\n",
-		n, evals, nontrivial, len(distinct), loadFailed, reloadDone, rebuildDone, envProcs, reps, netFiles, histories, interleaves, boundaries, sharedWrites, coldFiles)
+	fmt.Fprintf(sf, "cases %d\nevaluations %d\nnontrivial %d\ndistinct %d\nloadfailed %d\nreloads %d\nrebuilds %d\ngomaxprocs %d\nreps %d\nnetworkfiles %d\nhistories %d\ninterleaves %d\nboundaries %d\nsharedwrites %d\ncoldfiles %d\nextremeenums %d\n",
+		n, evals, nontrivial, len(distinct), loadFailed, reloadDone, rebuildDone, envProcs, reps, netFiles, histories, interleaves, boundaries, sharedWrites, coldFiles, extremeEnums)
 	keys := make([]string, 0, len(kinds))
 	for k := range kinds {
 		keys = append(keys, k)
